@@ -710,6 +710,7 @@ impl Formatter {
         MechCode::FsmImplementation(fsm_impl) => self.fsm_implementation(fsm_impl),
         MechCode::FunctionDefine(func_def) => self.function_define(func_def),
         MechCode::Statement(stmt) => self.statement(stmt),
+        MechCode::Error(skipped, _) if !self.html => skipped.to_string().trim_end_matches('\n').to_string(),
         x => format!("{{{:?}}}", x)
       };
       let formatted_comment = match cmmnt {
@@ -1610,6 +1611,7 @@ impl Formatter {
         MechCode::FsmSpecification(fsm_spec) => self.fsm_specification(fsm_spec),
         MechCode::FunctionDefine(func_def) => self.function_define(func_def),
         MechCode::Statement(stmt) => self.statement(stmt),
+        MechCode::Error(skipped, _) if !self.html => skipped.to_string().trim_end_matches('\n').to_string(),
         x => todo!("Unhandled MechCode: {:#?}", x),
       };
       let formatted_comment = match cmmnt {
